@@ -16,7 +16,8 @@ TOK = re.compile(r'Establishing optimal transition set for event (\d+)|Exiting s
 def make_case(seed):
     rng = random.Random(seed)
     if seed < 0:
-        ch, hist = C.gen_done_chart(-seed, ('const', 1))       # done.state family (spin prints a log only when it has an expr)
+        # done.state family / history family (spin prints a log only when it has an expr)
+        ch, hist = C.gen_done_chart(-seed, ('const', 1)) if seed % 2 == 0 else C.gen_hist_chart(-seed, ('const', 1))
         ch.data = {}
         hist = hist[:5]
     else:
